@@ -81,8 +81,8 @@ def run(ctx):
             ctx.fail(f"clone-raises:{fk.exc_kind(e)}", f"clone raises {e!r}"[:300], dict(desc, op="clone"))
         # --- Config fields
         fields = {"common_subexpression_elimination": [True, False], "extra_validation": [True, False], "max_dt_sec": [0.05, 1.0, 0.013],
-                  "innovation_filtering": [None, 1.5, 7.0], "python_modules": [("numpy", "math", "scipy", {})]}
-        for fld, values in fields.items():
+                  "innovation_filtering": [None, 1.5, 7.0, 0.0], "python_modules": [("numpy", "math", "scipy", {})]}
+        for fld, values in list(fields.items()) + [("innovation_filtering", [None if k0 is not None else 0.0])]:
             v = ctx.rng.choice(values)
             a2 = copy.copy(ad)
             before = a2.get_params()
